@@ -647,4 +647,138 @@ end etr
 
 end bisectLocal
 
+/-! ### `extract_time_range` on any times, in the world -/
+
+section etrWorld
+variable {K : Type} [Add K] [Sub K] [Mul K] [Neg K] [NatCast K] [LinearOrder K]
+
+/-- **`extract_time_range(a, b)` in the world, ANY time stamps** (`extract_time_range_any_times` composed with
+`extract_time_range_world`): the operation returns a new storage, allocates nothing (it shares the frame objects),
+and a reader of the new storage sees the pairs `i .. j-1` of what a reader of the source sees, `i`/`j` crossing
+points of the stored times as in `extract_time_range_any_times` -/
+theorem extract_time_range_any_times_world (w : World K) (sid : Nat) (a b : K) (sv : Store K (List K))
+    (hv : w.view sid = some sv) (hlen : sv.times.length = sv.frames.length) :
+    ∃ sv' i j,
+      (step w (.extractTimeRange sid (.pair (some a) (some b)))).2 = .ok (.store w.stores.length) ∧
+      (step w (.extractTimeRange sid (.pair (some a) (some b)))).1.view w.stores.length = some sv' ∧
+      (step w (.extractTimeRange sid (.pair (some a) (some b)))).1.heap = w.heap ∧
+      i = bisectLeft sv.times a ∧ j = bisectRight sv.times b ∧
+      i ≤ sv.times.length ∧ j ≤ sv.times.length ∧
+      sv'.contents = (sv.contents.drop i).take (j - i) ∧
+      sv'.template = sv.template ∧ sv'.mode = .truncateOnce ∧
+      (i = 0 ∨ ∃ t, sv.times[i - 1]? = some t ∧ t < a) ∧
+      (i = sv.times.length ∨ ∃ t, sv.times[i]? = some t ∧ a ≤ t) ∧
+      (j = 0 ∨ ∃ t, sv.times[j - 1]? = some t ∧ t ≤ b) ∧
+      (j = sv.times.length ∨ ∃ t, sv.times[j]? = some t ∧ b < t) := by
+  obtain ⟨s, hs, rfl⟩ := view_some w sid sv hv
+  have hlen' : s.times.length = s.frames.length := by simpa [Store.mapFrames] using hlen
+  obtain ⟨s', _, _, hr, _⟩ := extract_time_range_any_times s hlen' a b
+  obtain ⟨w1, w2, w3⟩ := extract_time_range_world w sid _ s s' hs hr
+  obtain ⟨s'', i, j, hr', hi, hj, r⟩ := extract_time_range_any_times (s.mapFrames w.deref) hlen a b
+  rw [w2] at hr'
+  cases hr'
+  obtain ⟨r1, r2, r3, _, r5, r6, r7⟩ := r
+  refine ⟨_, i, j, ?_, w1, w3, hi, hj, r1, r2, r3, r5, r6, r7⟩
+  simp only [step, hs, hr]
+
+end etrWorld
+
+/-- the hypotheses of `extract_time_range_any_times_world` hold for storage 0 of the example world -/
+example : (exCollWorld.view 0).map (fun sv => (sv.times, decide (sv.times.length = sv.frames.length))) =
+    some ([0, 2], true) := by decide +kernel
+
+/-! ### composed observations: `storage[a:b]` and `view_field(fid)[i]` against the specification log -/
+
+section composed
+variable {K : Type} [Add K] [Sub K] [Mul K] [Neg K] [NatCast K] [LT K] [DecidableLT K] [LE K] [DecidableLE K]
+
+/-- **`storage[a:b]`, observed through the operation itself** (review list item 2, the slice half that
+`world_read_returns_appended` leaves out): for a storage created in any reachable world, after any safe
+continuation, the slice RETURNS the data of the pairs `lo .. hi-1` of the specification log, in order (`lo`, `hi`:
+Python's `slice.indices` bounds), never raises, and leaves the world as it is -/
+theorem world_slice_returns_appended (w : World K) (h : w.Inv) (hwf : w.AllWF) (m : Mode)
+    (ops : List (Op K)) (hops : ∀ op ∈ ops, op.safe = true) (a b : Option Int) :
+    let w0 := (step w (.newStore m)).1
+    let sid := w.stores.length
+    let w1 := run w0 ops
+    let log := (runBoth (Store.new m) (Spec.init m) (wtraceL sid w0 ops)).2.log
+    ∃ l, (step w1 (.slice sid a b)).2 = .ok (.fields l) ∧
+      l.map Prod.snd = ((log.map Prod.snd).drop (sliceBound log.length a 0)).take
+        (sliceBound log.length b log.length - sliceBound log.length a 0) ∧
+      (step w1 (.slice sid a b)).1 = w1 := by
+  intro w0 sid w1 log
+  obtain ⟨sv, hv, hsv, hc, _⟩ := world_reads_appended w h hwf m ops hops
+  have hw : WF sv := by rw [hsv]; exact wf_srun _ _ (wf_new m)
+  have hfr : sv.frames = log.map Prod.snd := by
+    rw [show log = sv.contents from hc.symm]
+    simp only [Store.contents]
+    rw [List.map_snd_zip]
+    rw [hw.1]
+  have hlen : sv.times.length = log.length := by
+    rw [show log = sv.contents from hc.symm]
+    simp [Store.contents, hw.1]
+  obtain ⟨l, hl1, hl2, _⟩ := getSlice_eq sv hw a b
+  obtain ⟨e1, e2⟩ := slice_world w1 sid a b sv hv
+  refine ⟨l, by rw [e1, hl1], ?_, e2⟩
+  rw [hl2, hfr, hlen]
+
+/-- **`storage.view_field(fid)[i]`, observed through the operations themselves** (review list item 3 composed
+with the specification log): for a storage created in any reachable world, after any safe continuation, whenever the
+view read returns a field, `storage[i]` returns the collection field `fi` holding the `i`-th logged data, and the
+view's field is member `j` of it - the member `extract_field` selects for the same id -: description
+`memberInfo fi mem`, data `sliceFrame fi j` of the logged data (the data at the moment of appending) -/
+theorem world_view_read_returns_appended (w : World K) (h : w.Inv) (hwf : w.AllWF) (m : Mode)
+    (ops : List (Op K)) (hops : ∀ op ∈ ops, op.safe = true) (fid : FieldId) :
+    let w0 := (step w (.newStore m)).1
+    let sid := w.stores.length
+    let w1 := run w0 ops
+    let log := (runBoth (Store.new m) (Spec.init m) (wtraceL sid w0 ops)).2.log
+    ∀ i (hi : i < log.length) (mi : FieldInfo) (vals : List K),
+      (step w1 (.viewRead sid fid (i : Int))).2 = .ok (.field mi vals) →
+      ∃ fi j mem sv, (step w1 (.read sid (i : Int))).2 = .ok (.field fi (log[i]).2) ∧
+        w1.view sid = some sv ∧ extractFieldPlan sv fid none = .ok (fi, j, memberInfo fi mem none) ∧
+        mi = memberInfo fi mem none ∧ vals = sliceFrame fi j (log[i]).2 := by
+  intro w0 sid w1 log i hi mi vals hobs
+  obtain ⟨sv, hv, hsv, _, _⟩ := world_reads_appended w h hwf m ops hops
+  have hr := read_returns_appended_in_order (K := K) (F := List K) m (wtraceL sid w0 ops)
+  simp only at hr
+  rw [← hsv] at hr
+  obtain ⟨_, _, hnat, _, _⟩ := hr
+  obtain ⟨fi', _, hg⟩ := hnat i hi
+  rw [view_field_world w1 sid fid _ sv hv] at hobs
+  cases hc : viewCreate sv fid with
+  | error e => rw [hc] at hobs; cases hobs
+  | ok fidx =>
+    rw [hc] at hobs
+    simp only at hobs
+    cases hvg : viewGet sv fidx (i : Int) with
+    | error e => rw [hvg] at hobs; cases hobs
+    | ok r =>
+      obtain ⟨fi, f, j, mem⟩ := r
+      rw [hvg] at hobs
+      simp only [Except.ok.injEq, Obs.field.injEq] at hobs
+      obtain ⟨g1, g2⟩ := view_field_consistent sv fid fidx _ fi f j mem hc hvg
+      rw [hg] at g1
+      simp only [Except.ok.injEq, Prod.mk.injEq] at g1
+      obtain ⟨rfl, rfl⟩ := g1
+      refine ⟨fi', j, mem, sv, ?_, hv, g2, hobs.1.symm, hobs.2.symm⟩
+      rw [read_world w1 sid _ sv hv, hg]
+
+end composed
+
+/-- the hypothesis of `world_view_read_returns_appended` is satisfiable: a collection storage created in a world
+that already holds a field; `view_field(1)[0]` returns the vector member's rows of the appended data, also after
+the source field was overwritten -/
+def exViewWorld : World Rat :=
+  run (step (run World.empty [.newField exColl [1, 2, 3, 4, 5, 6]]) (.newStore .truncateOnce)).1
+    [.start 0 0, .append 0 0 (some 0) true, .setField 0 [9, 9, 9, 9, 9, 9]]
+
+example : (match (step exViewWorld (.viewRead 0 (.idx 1) 0)).2 with
+    | .ok (.field mi vals) => some (mi.label, vals)
+    | _ => none) = some (some "v", [3, 4, 5, 6]) := by decide +kernel
+
+example : (match (step exViewWorld (.slice 0 (some (-1)) none)).2 with
+    | .ok (.fields l) => some (l.map Prod.snd)
+    | _ => none) = some [[1, 2, 3, 4, 5, 6]] := by decide +kernel
+
 end PdeVerif.Storage
